@@ -280,22 +280,26 @@ def two_volumes(run, n):
                      'steps': [{'cmd': 'put', 'argv': ['--'] + args, 'now': [2024, 5, 6, 7, 8, 9, 0]}]})
     out = engine.run_all(run, 'two-volumes', scns)
     for scn, res in out:
-        o = res['steps'][0]
-        after = o['after']
-        run.count('two-volumes-state')
-        uid = scn['uid']
-        for a in scn['steps'][0]['argv'][1:]:
-            vol = '/media/a' if a.startswith('/media/a') else '/media/b' if a.startswith('/media/b') else '/'
-            td = (vol + '/.Trash-%d' % uid) if vol != '/' else '/home/u/.local/share/Trash'
-            name = os.path.basename(a)
-            if after.get(td + '/files/' + name) is None or a in after:
-                run.fail('oracle', 'a file in the top directory of a volume did not go to the trash directory of its own volume',
-                         {'scenario': scn, 'arg': a, 'expected_dir': td, 'exit': o['exit'], 'stderr': o['stderr'][-500:]},
-                         key='wrong-volume-multi-arg', section='two-volumes')
-        if [m for m in o.get('muts', []) if m in ('sendfile', 'copy_file_range')]:
-            run.fail('oracle', 'a cross-device copy happened without the home fallback', {'scenario': scn, 'mutations': o.get('muts')},
-                     key='silent-copy', section='two-volumes')
-        run.nontriv(('two-vol', tuple(scn['steps'][0]['argv'][1:]), scn['cwd']))
+        judge_two_volumes(run, scn, res)
+
+
+def judge_two_volumes(run, scn, res, section='two-volumes'):
+    o = res['steps'][0]
+    after = o['after']
+    run.count(section + '-state')
+    uid = scn['uid']
+    for a in scn['steps'][0]['argv'][1:]:
+        vol = '/media/a' if a.startswith('/media/a') else '/media/b' if a.startswith('/media/b') else '/'
+        td = (vol + '/.Trash-%d' % uid) if vol != '/' else '/home/u/.local/share/Trash'
+        name = os.path.basename(a)
+        if after.get(td + '/files/' + name) is None or a in after:
+            run.fail('oracle', 'a file in the top directory of a volume did not go to the trash directory of its own volume',
+                     {'scenario': scn, 'arg': a, 'expected_dir': td, 'exit': o['exit'], 'stderr': o['stderr'][-500:]},
+                     key='wrong-volume-multi-arg', section=section)
+    if [m for m in o.get('muts', []) if m in ('sendfile', 'copy_file_range')]:
+        run.fail('oracle', 'a cross-device copy happened without the home fallback', {'scenario': scn, 'mutations': o.get('muts')},
+                 key='silent-copy', section=section)
+    run.nontriv(('two-vol', tuple(scn['steps'][0]['argv'][1:]), scn['cwd']))
 
 
 def run(run, thorough):
@@ -325,3 +329,5 @@ def replay(run, payload):
     if meta:
         meta = dict(meta, mounts=['/'] + list(scn['mounts']))
         judge(run, scn, meta, res)
+    elif sorted(scn.get('mounts') or []) == ['/media/a', '/media/b']:
+        judge_two_volumes(run, scn, res, 'replay')
